@@ -31,3 +31,21 @@ pub fn set_rng_fault(armed: bool) {
 pub fn rng_fault() -> bool {
   RNG_FAULT.with(|f| f.get())
 }
+
+thread_local! {
+  static NOW_OVERRIDE: std::cell::Cell<Option<i128>> = const { std::cell::Cell::new(None) };
+}
+
+/// Virtual clock: while set (unix nanoseconds), the default exp/nbf validators and `PasetoBuilder::default()`
+/// on the calling thread use this instant instead of the system clock
+pub fn set_now(unix_nanos: Option<i128>) {
+  NOW_OVERRIDE.with(|n| n.set(unix_nanos));
+}
+
+/// The virtual instant if one is set (and representable), otherwise the instant passed in
+pub fn now_or(real: time::OffsetDateTime) -> time::OffsetDateTime {
+  match NOW_OVERRIDE.with(|n| n.get()) {
+    Some(ns) => time::OffsetDateTime::from_unix_timestamp_nanos(ns).unwrap_or(real),
+    None => real,
+  }
+}
